@@ -737,11 +737,24 @@ def eval_tree(rep, case, tier, only=None):
             g = build_go(rows, pattern, variant, read, rep, rp)
             if g is None:
                 continue
+            check_derived(rep, g, rows, rp)   # before any view of g is read: the caches of g are as the history left them
             if not views(rep, g, rows, rp, 'go-views'):
                 continue
             check_whole_key(rep, g, rows, rp)
             check_selectors(rep, rep, g, rows, pattern, rp, tier, containers=True, stride=((5 if mine else 59) if tier == 'quick' else (1 if mine else 7)), offset=vi + salt)
     eval_invalid_appends(rep, rows, pattern, base_rp, only)
+
+
+def check_derived(rep, g, rows, rp):
+    """indices built from a grown grow-only index ("however it was built") describe the same tuples"""
+    import static_frame as sf
+    for how, thunk in (('IndexHierarchy(go)', lambda: sf.IndexHierarchy(g)), ('IndexHierarchyGO(go)', lambda: sf.IndexHierarchyGO(g)),
+                       ('go.copy()', lambda: g.copy()), ('go.rename', lambda: g.rename('n'))):
+        o = obs(thunk)
+        if o[0] == 'exc':
+            rep.fail(f'{PID}:go-derived:{how}:raises-{type(o[1]).__name__}', f'{how} raises {o[1]!r} for a grown index listing {rows!r}', dict(rp, derived=how))
+            continue
+        views(rep, o[1], rows, dict(rp, derived=how), 'go-derived-views')
 
 
 def eval_non_tree(rep, rows, pattern, base_rp):
